@@ -1,6 +1,6 @@
 """C13 — membership: no false deaths on a healthy network, real failures are detected.
 
-Three bounded-exhaustive drivers on the REAL implementation:
+Four bounded-exhaustive drivers on the REAL implementation:
 
 (1) ``healthy-n<N>`` (engine E2).  N MembershipProtocol nodes in a real
     ``Simulation`` + ``Network``; every directed link has a ``ChoiceLatency``
@@ -53,7 +53,7 @@ from mc.harness import (ChoiceLatency, Entity, Event, Holder, Instant, Simulatio
                         owned_random, pmap, rotate, run_guarded)
 
 from happysimulator.components.consensus.membership import (  # noqa: E402
-    MembershipProtocol, MemberState)
+    MembershipProtocol)
 from happysimulator.components.consensus.phi_accrual_detector import (  # noqa: E402
     PhiAccrualDetector)
 from happysimulator.components.network.link import NetworkLink  # noqa: E402
@@ -274,16 +274,28 @@ def run_cluster(chooser, cfg, fault=None, trace=None):
                         continue
                     if m in announced and isinstance(inc, int) and u.get("state") == "alive" and inc > announced[m]:
                         announced[m] = inc
+            n_before = len(timeline)
+            observe(t, ev.event_type)
             if trace is not None:
                 md = ev.context.get("metadata") or {}
                 trace.append((t, ev.event_type, getattr(tgt, "name", "?"),
-                              {k: v for k, v in md.items() if k not in ("source", "destination")}))
-            observe(t, ev.event_type)
+                              {k: v for k, v in md.items() if k not in ("source", "destination")},
+                              [f"{a} now reports {b} {s}" for (_t, a, b, s, _v) in timeline[n_before:]]))
 
         res = run_guarded(sim, max_events=400 * rounds * N + 1000, storm=5000, on_event=hook)
         observe(rounds * I_ns + EPS_NS, "end-of-run")
+
+    def phi_of(observer, subject, t_ns):
+        """Fingerprint attribution only (private state, silently unavailable after a refactor):
+        (phi the observer's detector for the subject gives at t, its threshold)."""
+        try:
+            det = nodes[names.index(observer)]._members[subject].detector
+            return float(det.phi(t_ns / SEC)), float(det.threshold)
+        except Exception:
+            return None
+
     return {"timeline": timeline, "findings": findings, "heard": heard, "res": res,
-            "node_events": n_node_events[0], "names": names}
+            "node_events": n_node_events[0], "names": names, "phi_of": phi_of}
 
 
 def bound_rounds(N, I, S):
@@ -316,7 +328,18 @@ def check_detection(out, cfg, fault):
         lat[an] = ("never" if (tl and tl[-1][1] == "ALIVE") else
                    (None if last_alive_end is None else round((last_alive_end - fault[1]) / I_ns, 2)))
         if bad_at is not None:
-            shape = "observer-had-heartbeats" if (an, v) in out["heard"] else "observer-never-heard-victim"
+            if (an, v) not in out["heard"]:
+                shape = "observer-never-heard-victim"
+            else:
+                # one full round before the deadline: a probe tick lies in between, so a detector that was
+                # already over its threshold there has been consulted (or should have been) in time
+                pv = out["phi_of"](an, v, deadline - I_ns)
+                if pv is None:
+                    shape = "observer-had-heartbeats"
+                elif pv[0] >= pv[1]:
+                    shape = "phi-over-threshold-ignored"
+                else:
+                    shape = "phi-still-below-threshold"
             still = tl[-1][1] == "ALIVE"
             found.append((f"Membership/undetected/{shape}",
                           f"N={N} interval={I}s suspicion={S}s phi={PHI}: {v} stopped for good at "
@@ -376,6 +399,14 @@ def _explore_job(job):
             st["nontriv"] += 1
         for fp, desc in f:
             if fp not in st["viol"]:
+                # re-run the violating case from its replay data before reporting it
+                again = run_cluster(Chooser(prefix=list(choices)), cfg, fault)
+                f_again = list(again["findings"])
+                if kind == "crash":
+                    f_again += check_detection(again, cfg, fault)[0]
+                if fp not in [x[0] for x in f_again] or again["timeline"] != out["timeline"]:
+                    raise RuntimeError(f"C13 harness: violation {fp} did not reproduce from its choice list "
+                                       f"(unowned nondeterminism) cfg={cfg} fault={fault} choices={choices}")
                 st["viol"][fp] = (desc, {"driver": kind, "cfg": list(cfg), "fault": fault,
                                          "choices": list(choices), "deviations": ndev})
         if len(st["samples"]) < 1 and (nontriv or st["exec"] == 1):
@@ -386,6 +417,9 @@ def _explore_job(job):
     out0 = one(base)
     if part == 0:
         account(base.choices, out0)
+        # determinism self-check: same choice list, same observation
+        if one(Chooser())["timeline"] != out0["timeline"]:
+            raise RuntimeError(f"C13 harness: two default executions differ (unowned nondeterminism) cfg={cfg}")
     if bound >= 1:
         firsts = [(i, alt) for i, (n, _tag) in enumerate(base.points) for alt in range(1, n)]
         for idx, (i, alt) in enumerate(firsts):
@@ -598,7 +632,7 @@ def main(tier, seed, only=None):
                            "a stopped member is modelled by the _crashed flag, the mechanism CrashNode uses",
                            "incarnations are read from the 'incarnation' fields of delivered membership messages; "
                            "if the message format changes the check falls back to 'no higher incarnation announced'",
-                           f"BOUND = N + ceil(suspicion/interval) + 2 probe rounds after the stop"])
+                           "BOUND = N + ceil(suspicion/interval) + 2 probe rounds after the stop"])
 
     def want(n):
         return not only or n in only
@@ -695,14 +729,10 @@ def replay(data):
     print(f"driver={rep['driver']} cfg(N,interval,suspicion,phi,rounds)={cfg} fault(victim,stop_ns,return_ns)={fault}")
     print("deviations (choice index, answer, kind):",
           [(i, c, ch.points[i][1]) for i, c in enumerate(ch.choices) if c])
-    changes = {}
-    for (t, a, b, s, via) in out["timeline"]:
-        changes.setdefault(t, []).append(f"{a} now reports {b} {s}")
-    shown = set()
-    for (t, et, tgt, md) in trace:
+    for (t, et, tgt, md, changed) in trace:
         print(f"  t={t / SEC:.6f}s {et} -> {tgt} {md}")
-        if t in changes and t not in shown:
-            pass
+        for line in changed:
+            print(f"      => {line}")
     print("view changes:")
     for (t, a, b, s, via) in out["timeline"]:
         print(f"  t={t / SEC:.6f}s {a} reports {b} {s} (while handling {via})")
